@@ -84,7 +84,7 @@ FREE == << -1 >>
 RAGGED == << -3 >>
 \* the caller overwrites an array: every element is replaced, the shape stays
 Scr(ct) == [i \in DOMAIN ct |-> IF ct[i] > 0 THEN -10 * ct[i] ELSE ct[i]]
-ShapeOf(ct) == IF ct[1] > 0 THEN ct[1] ELSE (-ct[1]) \div 10
+ShapeOf(ct) == IF ct = <<>> THEN 0 ELSE IF ct[1] > 0 THEN ct[1] ELSE (-ct[1]) \div 10
 NONE == << -2 >>
 
 KIdx(k) == CASE k = "x" -> 1 [] k = "logl" -> 2 [] k = "beta" -> 3 [] k = "logw" -> 4
